@@ -24,6 +24,7 @@ RULE = ("(crop) boxes: 5 positions x 10 yaws x 3 sizes x scales {0.8, 1, 1.3}; c
         "with and without an intensity column, plus the empty cloud and a 10^5-point lattice; (frame) every sub-set (<= 3) of 4 boxes (one of them 150 m away) x "
         "visibility {FULL, NONE, unset} each x (scale at 0 m, scale at 100 m, min points) menu x 5 polygonal non-detection prisms "
         "(triangle, rectangle CW and CCW, pentagon, L-shape) on a 5.5k-point lattice through SensingFrameResult.evaluate_frame; "
+        "(overlap) 3 scenes of annotated boxes overlapping in 3-D (rider on motorcycle, pedestrian touching a car, duplicate annotation) in every list order x 3 scale laws x min points {1, 4}; "
         "(manager) SensingEvaluationManager on generated datasets incl. loader-provided visibility. state = (layer, size, scale, yaw "
         "class, inside count) / (visibility vector, outcome classes); non-trivial = some but not all points inside / a mix of outcomes")
 ASSUMPTIONS = [
@@ -55,6 +56,7 @@ def units(tier, seed):
     u.append(dict(layer="elevated"))
     u.append(dict(layer="mixed"))
     u.append(dict(layer="beside"))
+    u.append(dict(layer="overlap"))
     return u
 
 
@@ -120,6 +122,14 @@ def run_unit(unit, acc):
             for s0, s100 in ((1.0, 1.0), (1.0, 1.5), (1.3, 0.8)):
                 for order in (0, 1):
                     check_case(dict(layer="mixed", scene=sc_i, s0=s0, s100=s100, minp=1, order=order), acc)
+    elif unit["layer"] == "overlap":
+        # annotated boxes that overlap in 3-D (a rider on a motorcycle, a pedestrian touching a car, a duplicate annotation): a point in the
+        # intersection is inside EVERY box containing it, whatever the order of the ground-truth list
+        for sc_i in range(len(OVERLAP)):
+            for s0, s100 in ((1.0, 1.0), (1.3, 1.3), (0.8, 2.0)):
+                for minp in (1, 4):
+                    for order in itertools.permutations(range(len(OVERLAP[sc_i]))):
+                        check_case(dict(layer="overlap", scene=sc_i, s0=s0, s100=s100, minp=minp, order=list(order)), acc)
     elif unit["layer"] == "prism":
         for pi in range(len(POLYS)):
             for rev in (False, True):
@@ -225,6 +235,13 @@ def _edge_dist(p, poly):
         t = max(0.0, min(1.0, ((p[0] - x1) * ex + (p[1] - y1) * ey) / (ex * ex + ey * ey)))
         d = min(d, math.hypot(p[0] - x1 - t * ex, p[1] - y1 - t * ey))
     return d
+
+
+OVERLAP = [
+    [(8.0, 2.0, 0.3, (0.8, 2.2, 1.4)), (8.0, 2.0, 0.3, (0.6, 0.6, 1.8))],                                      # rider inside the motorcycle's footprint, taller
+    [(-6.0, 9.0, -0.8, (2.0, 4.5, 1.5)), (-5.2, 10.1, 0.4, (0.7, 0.7, 1.7))],                                   # pedestrian partly inside a car's box
+    [(15.0, -4.0, 1.2, (2.0, 4.0, 1.5)), (15.0, -4.0, 1.2, (2.0, 4.0, 1.5)), (15.5, -3.0, 0.2, (1.0, 1.0, 1.0))],  # duplicate annotation + a third box overlapping both
+]
 
 
 def _check_frame_result(case, fr, gts, boxes, zc, s0, s100, minp, PC, polys, zr, acc, bad, extra_boxes=()):
@@ -441,6 +458,31 @@ def check_case(case, acc):
         if got != want:
             bad("manager-crop:rows", "manager.crop_pointcloud keeps %d points of an area beginning 0.2 m beside object %d (box scale %s), %d lie in the area and outside every "
                 "scaled box" % (len(got), case["box"], sc, len(want)))
+    elif lay == "overlap":
+        boxes = [OVERLAP[case["scene"]][i] for i in case["order"]]
+        key = ("overlap", case["scene"])
+        if key not in _EPC:
+            pts = []
+            for bx, by, byaw, (bw, bl, bh) in OVERLAP[case["scene"]]:
+                for a in REL:
+                    for b_ in REL:
+                        dx, dy = geom.rot2(a * bl / 2, b_ * bw / 2, byaw)
+                        for dz in (-0.83, -0.31, 0.17, 0.71, 1.27):
+                            pts.append((bx + dx, by + dy, 0.5 + dz * bh / 2, 1.0))
+            _EPC[key] = np.array(pts)
+        PC = _EPC[key]
+        gts = [G.mk3d(_box_spec(b[:2], b[2], b[3], z=0.5, vis=None, uuid="g%d" % i)) for i, b in zip(case["order"], boxes)]
+        cfg = SensingFrameConfig(None, case["s0"], case["s100"], case["minp"])
+        fr = SensingFrameResult(cfg, 100, "0")
+        zr = (-2.0, 3.0)
+        polys = [[(-40, -40), (40, -40), (40, 40), (-40, 40)]]
+        nd = [crop_pointcloud(PC, [(x, y, zr[0]) for x, y in polys[0]] + [(x, y, zr[1]) for x, y in polys[0]])]
+        acc.exec()
+        fr.evaluate_frame(gts, PC, nd)
+        acc.compared()
+        out = _check_frame_result(case, fr, gts, boxes, 0.5, case["s0"], case["s100"], case["minp"], PC, polys, zr, acc, bad)
+        acc.state(("overlap", case["scene"], case["s0"], case["s100"], case["minp"], tuple(case["order"]), tuple(out)), nontrivial=True)
+        acc.outcome(tuple(sorted(out)))
     elif lay == "mixed":
         boxes = list(MIXED[case["scene"]])
         if case["order"]:
